@@ -24,9 +24,15 @@ RESP = re.compile(rb"^HTTP/1\.1 (\d{3}) ([A-Za-z ]+)\r\n((?:[^\r\n]+\r\n)*)\r\n(
 @st.composite
 def request_bytes(draw, endpoint: str):
     kind = draw(st.sampled_from(["valid", "valid", "other-path", "other-method", "truncated", "binary", "oversize", "garbage", "two-requests",
-                                 "no-version", "bare-lf"]))
+                                 "no-version", "bare-lf", "long-target"]))
     path = endpoint
     method = "GET"
+    if kind == "long-target":
+        # a long request target (tens to thousands of characters, one segment or many), then handled like any other request
+        # line: complete, cut short, or without a version.  Whatever the bytes, answering (or dropping) them takes no time to speak of
+        seg = draw(st.sampled_from(["a", "a", "ab", "%41", "a.", "é"])) * draw(st.sampled_from([12, 24, 30, 48, 64, 300, 5000]))
+        path = "/" + (seg if draw(st.booleans()) else "/".join([seg[: max(1, len(seg) // 4)]] * 4)) + draw(st.sampled_from(["", "", "/", "?q=" + "1" * 40]))
+        kind = draw(st.sampled_from(["long-target", "truncated", "no-version", "bare-lf"]))
     if kind == "other-path":
         path = draw(st.one_of(ENDPOINT, st.just(endpoint + "x"), st.just(endpoint[:-1] or "/zz"), st.just(endpoint + "/"),
                               st.just(endpoint.upper() if endpoint.upper() != endpoint else endpoint + "Q")))
@@ -65,6 +71,39 @@ def proto_case(draw):
     n = len(req["hex"]) // 2
     cuts = sorted(draw(st.lists(st.integers(0, n), max_size=4)))
     return {"endpoint": endpoint, "status": draw(st.sampled_from([200, 503])), "req": req, "cuts": cuts}
+
+
+CPU_BUDGET_S = 2.0
+
+
+class _CpuBudgetExceeded(BaseException):
+    pass
+
+
+class _cpu_budget:
+    """Raises _CpuBudgetExceeded in the main thread once the process has used `seconds` of CPU time inside the block."""
+
+    def __init__(self, seconds: float) -> None:
+        self.seconds = seconds
+
+    def __enter__(self) -> None:
+        import signal
+        import threading
+
+        self.on = threading.current_thread() is threading.main_thread()
+        if self.on:
+            def fire(*_a: Any) -> None:
+                raise _CpuBudgetExceeded()
+
+            self.prev = signal.signal(signal.SIGVTALRM, fire)
+            signal.setitimer(signal.ITIMER_VIRTUAL, self.seconds)
+
+    def __exit__(self, *_a: Any) -> None:
+        import signal
+
+        if self.on:
+            signal.setitimer(signal.ITIMER_VIRTUAL, 0)
+            signal.signal(signal.SIGVTALRM, self.prev)
 
 
 class RecTransport:
@@ -116,20 +155,29 @@ def run_proto(case: dict) -> Outcome:
     cuts = [0] + [c for c in case["cuts"] if 0 < c < len(data)] + [len(data)]
     chunks = [data[a:b] for a, b in zip(cuts, cuts[1:]) if b > a] or [data]
     closed_by_error = False
-    t0 = time.monotonic()
-    for ch in chunks:
-        if tr.closed:
-            break
-        try:
-            proto.data_received(ch)
-        except Exception:  # noqa: BLE001  asyncio closes *this* connection on an Exception from data_received
-            closed_by_error = True
-            break
-        except BaseException as e:  # noqa: BLE001
-            out.v("protocol-base-exception", f"data_received raised {type(e).__name__} for {data[:80]!r}")
-            return out
-    if time.monotonic() - t0 > 5.0:
-        out.v("protocol-slow", f"data_received took {time.monotonic() - t0:.1f}s for {len(data)} bytes")
+    # data_received runs on the worker's event loop: while it computes, nothing else does.  The budget is CPU time of this
+    # process (not wall-clock time, so a loaded machine does not matter): a request of at most ~1 MB is answered in
+    # milliseconds; two seconds of computing is four orders of magnitude away from that.
+    t0 = time.process_time()
+    with _cpu_budget(CPU_BUDGET_S):
+        for ch in chunks:
+            if tr.closed:
+                break
+            try:
+                proto.data_received(ch)
+            except Exception:  # noqa: BLE001  asyncio closes *this* connection on an Exception from data_received
+                closed_by_error = True
+                break
+            except _CpuBudgetExceeded:
+                out.v("protocol-blocks-loop", f"data_received was still computing after {CPU_BUDGET_S:.0f} s of CPU time on a {len(ch)}-byte "
+                      f"chunk {ch[:60]!r}: the worker's event loop is blocked for that long", nbytes=len(data))
+                return out
+            except BaseException as e:  # noqa: BLE001
+                out.v("protocol-base-exception", f"data_received raised {type(e).__name__} for {data[:80]!r}")
+                return out
+    if time.process_time() - t0 > CPU_BUDGET_S / 2:
+        out.v("protocol-blocks-loop", f"data_received computed for {time.process_time() - t0:.1f}s on {len(data)} bytes "
+              f"({data[:60]!r}): the worker's event loop is blocked for that long", nbytes=len(data))
     one_chunk = len(chunks) == 1
     if tr.written:
         p = parse_response(tr.written)
